@@ -277,6 +277,10 @@ type J2TStateMachine struct {
 	SM              StateMachine
 	FieldCache      []int32
 	FieldValueCache FieldValue
+	// retired keeps the arrays replaced by Grow*Cache alive until the state machine is freed: the states of the
+	// running conversion still hold RAW pointers into them (J2TExtra, invisible to the garbage collector).
+	// Go-only trailing field: the native side never looks past FieldValueCache.
+	retired [][]byte
 }
 
 func (fsm *J2TStateMachine) String() string {
@@ -329,6 +333,10 @@ func NewJ2TStateMachine() *J2TStateMachine {
 }
 
 func FreeJ2TStateMachine(ret *J2TStateMachine) {
+	for i := range ret.retired {
+		ret.retired[i] = nil
+	}
+	ret.retired = ret.retired[:0]
 	ret.SP = 0
 	ret.ReqsCache = ret.ReqsCache[:0]
 	ret.KeyCache = ret.KeyCache[:0]
@@ -383,6 +391,7 @@ func (ret *J2TStateMachine) GrowReqCache(n int) {
 	c := cap(ret.ReqsCache) + n*resizeFactor
 	tmp := make([]byte, len(ret.ReqsCache), c)
 	copy(tmp, ret.ReqsCache)
+	ret.retired = append(ret.retired, ret.ReqsCache)
 	ret.ReqsCache = tmp
 }
 
@@ -390,6 +399,7 @@ func (ret *J2TStateMachine) GrowKeyCache(n int) {
 	c := cap(ret.KeyCache) + n*resizeFactor
 	tmp := make([]byte, len(ret.KeyCache), c)
 	copy(tmp, ret.KeyCache)
+	ret.retired = append(ret.retired, ret.KeyCache)
 	ret.KeyCache = tmp
 }
 
